@@ -36,7 +36,7 @@ RULE = (
     "operation kinds). Non-trivial iff at least one iteration is restored or read after a later solve changed the live state."
 )
 ASSUMPTIONS = [
-    "the time scheme is not changed between saving and restoring an iteration (what a scheme stores is scheme-specific)",
+    "when the time scheme is changed between saving and restoring an iteration, a rate field is judged only if the entry stored it and the scheme in force reads it, or if it was zero when the iteration was saved",
     "internal variables are compared operationally: the recorded next load step is replayed on a deep copy of the restored object and on the deep copy taken when the iteration was saved",
     "writing into an array *returned by Get_results* is outside the property (client write, the dict copy is shallow) and is not exercised",
     "single process (MPI branches unreachable)",
@@ -79,6 +79,9 @@ def cases(tier: str, seed: int) -> list[dict]:
             out.append({"kind": kind, "scheme": scheme, "dim": dim, "et": et, "nops": max(6, nops * 2 // 3) if heavy else nops})
     for kind, scheme, dim, et in CONFIGS:
         out.append({"kind": kind, "scheme": scheme, "dim": dim, "et": et, "nops": 3, "script": True})
+    for kind, scheme, dim, et in CONFIGS:
+        if kind in ("thermal", "elastic", "weakforms") and not (kind == "weakforms" and scheme == "static"):
+            out.append({"kind": kind, "scheme": scheme, "dim": dim, "et": et, "nops": 2, "script": "steady-then-transient"})
     for i, c in enumerate(out):
         c["id"] = f"C15-{i:05d}-{c['kind']}-{c['scheme']}-{c['et']}"
         c["index"] = i
@@ -86,14 +89,30 @@ def cases(tier: str, seed: int) -> list[dict]:
 
 
 # ------------------------------------------------------------------------------------------
-def set_scheme(simu, scheme, rng):
+def make_scheme(scheme, rng):
+    """(name, dt, theta): the complete description of a time scheme, so that it can be set again on any copy."""
     if scheme == "static":
-        return
+        return ("static",)
     dt = float(rng.uniform(0.05, 0.3))
     if scheme == "parabolic":
-        simu.Solver_Set_Parabolic_Algorithm(dt, float(rng.choice([0.5, 1.0, 0.7])))
+        return ("parabolic", dt, float(rng.choice([0.5, 1.0, 0.7])))
+    return (scheme, dt)
+
+
+def apply_scheme(simu, cfg):
+    if cfg[0] == "static":
+        simu.Solver_Set_Elliptic_Algorithm()
+    elif cfg[0] == "parabolic":
+        simu.Solver_Set_Parabolic_Algorithm(cfg[1], cfg[2])
     else:
-        simu.Solver_Set_Hyperbolic_Algorithm(dt, algo=AlgoType(scheme))
+        simu.Solver_Set_Hyperbolic_Algorithm(cfg[1], algo=AlgoType(cfg[0]))
+
+
+def set_scheme(simu, scheme, rng):
+    cfg = make_scheme(scheme, rng)
+    if cfg[0] != "static":
+        apply_scheme(simu, cfg)
+    return cfg
 
 
 LOADS = {"elastic": 0.01, "thermal": 1.0, "beam": 1.0, "weakforms": 1.0, "phasefield": 1.5e-3, "hyperelastic": 0.05, "inelastic": 0.012}
@@ -255,8 +274,10 @@ def _run(case, ctx, rng, kind, scheme, dim, et, key0, root):
     with ctx.monitored("no-exception", key0 + "/build/raised"):
         with quiet():
             live, info = new_sim()
-            set_scheme(live, scheme, rng)
+            case_scheme = set_scheme(live, scheme, rng)
+    cur_scheme = [case_scheme]
     fam = stored_fields(kind, scheme, live)
+    user_info = {}  # a dict of extra information the caller hands to Save_Iter, the same object at every call
     shadow = []  # one entry per saved iteration
     infos = {0: info}  # node sets per mesh index (harness bookkeeping)
     imesh = [0]
@@ -285,10 +306,17 @@ def _run(case, ctx, rng, kind, scheme, dim, et, key0, root):
     def op_save():
         if not dirty_since_save[0] and shadow and rng.random() < 0.5:
             op_step()
-        live.Save_Iter()
+        if case["index"] % 3 == 0:
+            live.Save_Iter()
+        else:
+            # extra information of the caller, in a dict it keeps and updates from step to step
+            user_info["load"] = float(last_lam[0])
+            user_info["count"] = len(shadow)
+            live.Save_Iter(user_info)
         i = live.Niter - 1
         probe_lam = lam_next()
         entry = {
+            "scheme": cur_scheme[0], "fam": stored_fields(kind, cur_scheme[0][0], live),
             "i": i, "state": state_of(live), "mesh": mesh_of(live.mesh), "results": results_of(live), "imesh": imesh[0],
             "folder": live.folder, "clone": copy.deepcopy(live), "probe_lam": probe_lam, "probe_ref": None, "later_solves": 0,
             "got": copy.deepcopy({k: (v.copy() if isinstance(v, np.ndarray) else copy.deepcopy(v)) for k, v in live.Get_results(i).items()}),
@@ -304,7 +332,7 @@ def _run(case, ctx, rng, kind, scheme, dim, et, key0, root):
             ctx.check("resave-results", e, 1e-10, k + "/results", where=where, restored=o["i"], history=list(history))
             worst, where = 0.0, ""
             for kf, v in o["got"].items():
-                if kf in ("newtonIter", "timeIter", "list_norm_r", "Niter", "convIter"):
+                if kf in ("newtonIter", "timeIter", "list_norm_r", "Niter", "convIter", "load", "count"):
                     continue  # convergence bookkeeping of the step that produced the iteration, not state
                 g = entry["got"].get(kf)
                 e = max([cmp_val((g or {}).get(kk), vv) for kk, vv in v.items()] + [0.0]) if isinstance(v, dict) else cmp_val(g, v)
@@ -330,30 +358,55 @@ def _run(case, ctx, rng, kind, scheme, dim, et, key0, root):
 
     def probe(simu, s):
         sim = copy.deepcopy(simu)
+        if s["scheme"] != case_scheme or cur_scheme[0] != case_scheme:
+            apply_scheme(sim, s["scheme"])
         apply_load(sim, infos[s["imesh"]], kind, s["probe_lam"])
         out = solve(sim, kind)
         st = state_of(sim)
         return st
 
+    def judged_families(s):
+        """Which solution vectors a restore of entry s under the current scheme has to bring back: those the entry stored and
+        the current scheme reads; a rate the entry did not store is judged only where the live rate was zero at save time (the
+        state saved is then 'zero rate', whatever the scheme in force at the restore)."""
+        now = stored_fields(kind, cur_scheme[0][0], live)
+        out = ["u"]
+        for j, nm in ((1, "v"), (2, "a")):
+            if nm in s["fam"] and nm in now:
+                out.append(nm)
+            elif nm not in s["fam"] and all(not np.any(st[j]) for st in s["state"].values()):
+                out.append(nm)
+        return tuple(out)
+
     def check_restored(s, via):
         k = f"{key0}/{via}"
-        e, where = cmp_state(state_of(live), s["state"], fam)
-        ctx.check("restore-state", e, EXACT, k + "/fields", where=where, iteration=s["i"], history=list(history), saved_in=("disk" if s["folder"] else "memory"))
+        switched = s["scheme"] != cur_scheme[0]
+        if switched:
+            k += "@scheme-changed-since-save"
+        fams = judged_families(s)
+        complete = len(fams) == 3          # results and the next step may read every vector
+        e, where = cmp_state(state_of(live), s["state"], fams)
+        ctx.check("restore-state", e, EXACT, k + "/fields", where=where, iteration=s["i"], history=list(history), saved_in=("disk" if s["folder"] else "memory"),
+                  families=list(fams))
         e, where = cmp_mesh(mesh_of(live.mesh), s["mesh"])
         ctx.check("restore-mesh", e, 0.0, k + "/mesh", where=where, iteration=s["i"], history=list(history))
-        e, where = cmp_results(results_of(live), s["results"])
-        ctx.check("restore-results", e, 1e-10, k + "/results", where=where, iteration=s["i"], history=list(history))
-        # internal variables, operationally: the same next step from the restored object and from the clone taken at save time
-        if s["probe_ref"] is None:
-            s["probe_ref"] = probe(s["clone"], s)
-        got = probe(live, s)
-        e, where = cmp_state(got, s["probe_ref"], fam)
-        ctx.check("restore-continuation", e, 1e-9, k + "/next-step", where=where, iteration=s["i"], history=list(history), later_solves=s["later_solves"])
+        if complete:
+            e, where = cmp_results(results_of(live), s["results"])
+            ctx.check("restore-results", e, 1e-10, k + "/results", where=where, iteration=s["i"], history=list(history))
+            # internal variables, operationally: the same next step from the restored object and from the clone taken at save time
+            if s["probe_ref"] is None:
+                s["probe_ref"] = probe(s["clone"], s)
+            got = probe(live, s)
+            e, where = cmp_state(got, s["probe_ref"], s["fam"])
+            ctx.check("restore-continuation", e, 1e-9, k + "/next-step", where=where, iteration=s["i"], history=list(history), later_solves=s["later_solves"])
+        else:
+            ctx.event("restore-partly-judged:rate-not-part-of-entry-or-scheme")
         if s["later_solves"]:
             nontrivial[0] = True
         imesh[0] = s["imesh"]
         dirty_since_save[0] = True
-        at_iter[0] = s["i"]
+        # a re-save is held against the original entry only when the restore brought everything back under the entry's scheme
+        at_iter[0] = s["i"] if (complete and not switched) else None
 
     def op_set_iter():
         if not shadow:
@@ -362,6 +415,16 @@ def _run(case, ctx, rng, kind, scheme, dim, et, key0, root):
         live.Set_Iter(s["i"])
         check_restored(s, "Set_Iter")
         return f"Set_Iter({s['i']})"
+
+    def op_scheme():
+        """Switches between the stationary algorithm and the time scheme of the case (thermal: steady state, then transient)."""
+        if kind not in ("thermal", "elastic", "weakforms") or case_scheme[0] == "static" and kind == "weakforms":
+            return op_step()
+        other = case_scheme if case_scheme[0] != "static" else make_scheme({"thermal": "parabolic", "elastic": "newmark"}[kind], rng)
+        cur_scheme[0] = ("static",) if cur_scheme[0][0] != "static" else other
+        apply_scheme(live, cur_scheme[0])
+        at_iter[0] = None
+        return f"scheme={cur_scheme[0][0]}"
 
     def op_get():
         if not shadow:
@@ -402,11 +465,14 @@ def _run(case, ctx, rng, kind, scheme, dim, et, key0, root):
             val = live.Result(name, nodeValues=nv, iter=s["i"])
         except Exception as e:  # noqa: BLE001
             val = ("raised", type(e).__name__)
-        ctx.check("result-of-iteration", cmp_val(val, ref), 1e-10, key0 + "/Result(iter=)", name=name, nodeValues=nv, iteration=s["i"], history=list(history))
+        if len(judged_families(s)) == 3:
+            ctx.check("result-of-iteration", cmp_val(val, ref), 1e-10, key0 + "/Result(iter=)", name=name, nodeValues=nv, iteration=s["i"], history=list(history))
+        else:
+            ctx.event("restore-partly-judged:rate-not-part-of-entry-or-scheme")
         # Result(iter=i) is documented to move the simulation to iteration i
         imesh[0] = s["imesh"]
         dirty_since_save[0] = True
-        at_iter[0] = s["i"]
+        at_iter[0] = s["i"] if (len(judged_families(s)) == 3 and s["scheme"] == cur_scheme[0]) else None
         if s["later_solves"]:
             nontrivial[0] = True
         return f"Result({name},iter={s['i']})"
@@ -481,12 +547,13 @@ def _run(case, ctx, rng, kind, scheme, dim, et, key0, root):
             s = pick()
             with ctx.monitored("no-exception", k + "/Set_Iter/raised"):
                 loaded.Set_Iter(s["i"])
-            e, where = cmp_state(state_of(loaded), s["state"], fam)
+            e, where = cmp_state(state_of(loaded), s["state"], judged_families(s))
             ctx.check("load-restore-state", e, EXACT, k + "/Set_Iter/fields", where=where, iteration=s["i"], history=list(history))
             e, where = cmp_mesh(mesh_of(loaded.mesh), s["mesh"])
             ctx.check("load-restore-mesh", e, 0.0, k + "/Set_Iter/mesh", where=where, iteration=s["i"], history=list(history))
-            e, where = cmp_results(results_of(loaded), s["results"])
-            ctx.check("load-restore-results", e, 1e-10, k + "/Set_Iter/results", where=where, iteration=s["i"], history=list(history))
+            if len(judged_families(s)) == 3:
+              e, where = cmp_results(results_of(loaded), s["results"])
+              ctx.check("load-restore-results", e, 1e-10, k + "/Set_Iter/results", where=where, iteration=s["i"], history=list(history))
         return "Save+Load_Simu"
 
     def op_mesh_save_load():
@@ -499,6 +566,8 @@ def _run(case, ctx, rng, kind, scheme, dim, et, key0, root):
         return "Mesh.Save+Load_Mesh"
 
     menu = [op_step, op_step, op_save, op_save, op_folder, op_set_iter, op_set_iter, op_get, op_get, op_result_iter, op_mesh, op_clobber, op_save_load, op_mesh_save_load]
+    if kind in ("thermal", "elastic", "weakforms") and case["index"] % 2:
+        menu.append(op_scheme)
     try:
         with ctx.monitored("no-exception", key0 + "/raised"):
             with quiet():
@@ -509,7 +578,13 @@ def _run(case, ctx, rng, kind, scheme, dim, et, key0, root):
                 # iteration after later solves, save again right after a restore, read, query, save / load), then random
                 script = [(op_save, None), (op_step, None), (op_save, None), (op_mesh, None), (op_save, None), (op_set_iter, 0), (op_save, None),
                           (op_step, None), (op_save, None), (op_set_iter, 2), (op_set_iter, 3), (op_get, 1), (op_result_iter, 0), (op_folder, None),
-                          (op_save, None), (op_save_load, None), (op_set_iter, 1)] if case.get("script") else []
+                          (op_save, None), (op_save_load, None), (op_set_iter, 1)] if case.get("script") is True else []
+                if case.get("script") == "steady-then-transient":
+                    # a steady state saved under the stationary algorithm, transient steps saved after it, the steady state restored
+                    # while the transient scheme is in force, and back
+                    script = [(op_scheme, None)] if cur_scheme[0][0] != "static" else []
+                    script += [(op_save, None), (op_scheme, None), (op_step, None), (op_save, None), (op_step, None), (op_save, None), (op_set_iter, 0),
+                               (op_step, None), (op_save, None), (op_set_iter, 1), (op_scheme, None), (op_set_iter, 0), (op_get, 1), (op_scheme, None), (op_set_iter, 2)]
                 for step in range(case["nops"] + len(script)):
                     if step < len(script):
                         op, forced[0] = script[step]
